@@ -47,12 +47,12 @@ def main():
     c = Check("C08", a.tier, a.seed)
     if a.replay:
         r = json.load(open(a.replay)); c.seed, c.tier = r["seed"], r["tier"]
-    ok_mk, log = c.make(["Props/C08.vo", "Model/C08Run.vo"])
+    ok_mk, log = c.make(["Props/C08.vo", "Model/C08Run.vo", "Model/C02Run.vo"])
     thms = theorems_of("Props/C08.v")
     assumptions = c.audit("Props.C08", thms) if ok_mk and thms else {}
     binary = c.build_harness("release")
     casefile = os.path.join(c.work, "cases.txt")
-    st, fails, total, mism = None, [], (0, 0), []
+    st, fails, total, mism, counts = None, [], (0, 0), [], {}
     if binary and c.run_harness(binary, "c08", casefile, timeout=20000):
         st, fails = scan(casefile)
         if ok_mk:
@@ -60,7 +60,7 @@ def main():
             if cli:
                 counts, mism, total = c.run_model(cli, "c08", casefile)
                 if mism:
-                    c.broken.append("Model/Lookup.v lookup_constraints disagrees with check_lookup_constraints on %d cases, first: %s"
+                    c.broken.append("Model/Lookup.v (lookup_constraints / compute_lookup_polys) disagrees with the implementation on %d cases, first: %s"
                                     % (total[1], mism[0][:300]))
     if a.replay:
         want = json.load(open(a.replay))["case"]
@@ -81,7 +81,8 @@ def main():
         "positives": st["pos"], "negatives": st["neg"], "accepted_negatives": len([f for f in fails if f["op"] != "lkc" and f.get("kind") != "positive"]),
         "negative_outcomes": st["outcomes"], "distribution": st["dist"], "table_and_lookup_shapes": st["shapes"],
         "evaluations": st["pos"] + st["neg"] + st["replay"], "distinct_nontrivial": len(st["dist"]),
-        "lookup_constraint_correspondence_cases": total[0], "lookup_constraint_mismatches": total[1], "lookup_constraint_oracle_cases": st["lkc"],
+        "model_correspondence_cases": total[0], "model_correspondence_mismatches": total[1], "model_correspondence_by_op": counts,
+        "lookup_constraint_oracle_cases": st["lkc"],
         "obligations": len(thms), "discharged": len([t for t in thms if assumptions.get(t, "").startswith("Closed")]),
         "theorems": {t: assumptions.get(t, "not checked") for t in thms},
         "rule": "1..4 tables of 1..600 arbitrary u16 pairs (duplicate outputs, repeated identical entries), 1..3.5 rows of lookups per table "
@@ -92,6 +93,7 @@ def main():
     }
     c.finish("translation_validation", coverage, [
         "the end-to-end statement is decided on generated cases by the implementation's prover and verifier",
-        "kernel theorems (transition algebra, completeness of compute_lookup_polys, the RE root bound) are proved on Model/Lookup.v, "
-        "which is tied to check_lookup_constraints by correspondence; soundness of the log-derivative argument as a whole is not formalised",
+        "kernel theorems (transition algebra, telescoping, counting identity, completeness of compute_lookup_polys for any number of tables, "
+        "the RE root bound) are proved on Model/Lookup.v, which is tied to check_lookup_constraints (lkc) and compute_lookup_polys (clp) by "
+        "correspondence; soundness of the running sum is REFUTED on the model (C08_lookup_sound_refuted) and on the implementation (sldc-shift cases)",
         "tables are functions (distinct inputs); a table listing one input with two different outputs is outside the property"])
